@@ -148,6 +148,9 @@ def mk_src(form, e, rec, fname="myfn"):
     if form == "def":
         exec("def %s(%s):\n    return %s\n" % (fname, arg, body), env)
         return env[fname]
+    if form == "lamd":
+        # a lambda with a default argument (pickling has to carry __defaults__)
+        return eval("lambda %s, _unused=1.0: %s" % (arg, body), env)
     return eval("lambda %s: %s" % (arg, body), env)
 
 
@@ -371,8 +374,13 @@ def tokens(items):
     return out
 
 
+# once a vectorised fill has happened in a program of a pruning machine, every later observation is
+# taken up to the empty sparse bins / categories the numpy kernels leave behind
+PRUNE = [False]
+
+
 def snap(h):
-    return tokens(tree(h))
+    return tokens(tree(h, PRUNE[0]))
 
 
 def same_value(x, y):
@@ -453,9 +461,12 @@ def exc_class(e):
 class Machine:
     """executes ops on real objects; one observation (token list) per op, like Run.step"""
 
+    prunes = False     # subclasses: observe up to empty sparse bins after the first vectorised fill
+
     def __init__(self):
         self.pool = []
         self.exc = []   # coarse exception classes, recorded, never compared
+        PRUNE[0] = False
 
     def step(self, op):
         t = op[0]
@@ -532,7 +543,21 @@ class Machine:
             return ob
         if t == "jsonrt":
             try:
-                c = hg.Factory.fromJson(p[op[1]].toJson())
+                mode = op[2] if len(op) > 2 else "dict"
+                if mode == "string":
+                    c = hg.Factory.fromJsonString(p[op[1]].toJsonString())
+                elif mode == "file":
+                    import os
+                    import tempfile
+                    fd, path = tempfile.mkstemp(suffix=".json", dir=os.environ.get("VERIF_TMP", "/root/scratch"))
+                    os.close(fd)
+                    try:
+                        p[op[1]].toJsonFile(path)
+                        c = hg.Factory.fromJsonFile(path)
+                    finally:
+                        os.unlink(path)
+                else:
+                    c = hg.Factory.fromJson(p[op[1]].toJson())
                 ob = [0] + snap(c)
             except Exception as e:  # noqa: BLE001
                 self.exc.append(exc_class(e))
@@ -578,7 +603,9 @@ class Machine:
             after = [data[n] for n in FIELDS[:len(cols)]] if form == "rec" else cols
             same = all(_same_array(x, y) for x, y in zip(after, before)) and (wb is None or _same_array(wa, wb))
             self.nplog.append({"inputs_unmodified": same, "raised": self.exc[-1] if r else None})
-            return [r]
+            if self.prunes:
+                PRUNE[0] = True
+            return [r] + tokens(tree(a, prune=True))
         if t == "snapp":
             return tokens(tree(p[op[1]], prune=True))
         if t == "view":
@@ -790,7 +817,8 @@ def qsig(h):
 def sparse_children(h):
     if h.name in ("SparselyBin", "Categorize"):
         return [v for _, v in sorted(((_pykey(k), v) for k, v in h.__dict__["bins"].items()),
-                                     key=lambda kv: key_sort(kv[0]))]
+                                     key=lambda kv: key_sort(kv[0]))
+                if not (PRUNE[0] and v.entries == 0.0)]
     return []
 
 
@@ -872,9 +900,14 @@ def get_path(h, path):
     return h
 
 
+class PruneMachine(Machine):
+    prunes = True
+
+
 class IdMachine(Machine):
     """like Machine, and after every op also observes the identity partition of the whole pool
     and the snapshots of all entries (for the non-interference oracle)"""
+    prunes = True
 
     def __init__(self):
         super().__init__()
@@ -887,6 +920,20 @@ class IdMachine(Machine):
         return canon(seq)
 
     def step(self, op):
+        if op[0] == "pure":
+            # read-only operations: ==, !=, hash, repr, toJson and the read accessors; what they return is
+            # not compared here (C09/C04/C13 do that): the frame oracle checks that nothing changed
+            a, b = self.pool[op[1]], self.pool[op[2]]
+            for f in (lambda: a == b, lambda: a != b, lambda: hash(a), lambda: repr(a), lambda: a.toJson(),
+                      lambda: a.toJsonString(), lambda: a.children, lambda: a.num_bins(), lambda: a.bin_edges(),
+                      lambda: a.bin_entries(), lambda: a.bin_centers(), lambda: a.mpv, lambda: a.n_dim,
+                      lambda: a.project_on_x(), lambda: a.xy_ranges_grid(), lambda: a.zero(), lambda: a.copy()):
+                try:
+                    f()
+                except Exception:  # noqa: BLE001
+                    pass
+            self.snaps.append([snap(h) for h in self.pool])
+            return [9]
         if op[0] == "share":
             h = self.pool[op[1]]
             obj = get_path(h, op[2])
@@ -982,6 +1029,39 @@ class FcnMachine(Machine):
                 log.append((got, ref))
             self.wraplog.append(log)
             return out
+        if t == "wraparr":
+            # calls with arrays (a dict of columns) interleaved with calls on single records; the model
+            # only builds the wrapper (arrays are not model values): the oracle compares with the bare function
+            import numpy as np
+            _, sd, wops, calls = op
+            try:
+                u = apply_wops(mk_src(sd["form"], sd["e"], "dict", sd.get("fname", "myfn")), wops)
+            except ValueError as e:
+                self.exc.append(exc_class(e))
+                return [1]
+            raw = mk_src(sd["form"] if sd["form"] != "str" else "lam", sd["e"], "dict")
+            if not hasattr(self, "arrlog"):
+                self.arrlog = []
+            log = []
+            for kind, payload in calls:
+                if kind == "rec":
+                    arg = to_record(payload, "dict")
+                else:
+                    cols = columns(payload)
+                    arg = dict(zip(FIELDS, cols))
+
+                def run(f):
+                    try:
+                        v = f(arg)
+                        return ("v", np.asarray(v, dtype=float).tolist() if kind == "arr" else tok_value(v))
+                    except Exception as e:  # noqa: BLE001
+                        return ("raise", type(e).__name__)
+                got, ref = run(u), run(raw)
+                same = (got == ref) or (got[0] == ref[0] == "v" and kind == "arr" and
+                                        _same_array(np.asarray(got[1], dtype=float), np.asarray(ref[1], dtype=float)))
+                log.append({"kind": kind, "same": bool(same), "got": got, "ref": ref})
+            self.arrlog.append(log)
+            return [0, 1 if isinstance(u, hg.util.CachedFcn) else 0] + tok_optstr(u.name)
         if t == "feq":
             _, sd1, w1, sd2, w2, rec = op
             try:
